@@ -3,8 +3,8 @@
 #   demo passes on the clean tree; with the patch: build, vet and the repository's suite pass and the demo fails.
 # Writes /tmp/mut/confirm_report.txt and, for confirmed ones, /verif/seeded/<ID>-mN/{patch.diff,demo_test.go,README.md,confirm.log}
 export GOFLAGS=-mod=mod GOPROXY=off GOSUMDB=off GOTOOLCHAIN=local
-W=/tmp/mut/_confirm
-REPORT=/tmp/mut/confirm_report.txt
+W=${W:-/tmp/mut/_confirm}
+REPORT=${REPORT:-/tmp/mut/confirm_report.txt}
 git -C /repo worktree remove --force $W 2>/dev/null
 git -C /repo worktree add --detach $W HEAD -q || exit 2
 : > $REPORT
